@@ -2,6 +2,7 @@
 # usage: tools/seedtest.sh <ID> <worktree> [props to run...]      ID = C06 or C06b (second seed for C06); default property = ID without its suffix letter
 # confirms a seeded change (tests still pass, demo fails with / passes without), stores it under /verif/seeded/, runs the checks on /repo with it applied
 set -u
+mkdir -p /tmp/sp
 P=$1; WT=$2; shift 2; OTHERS="$@"
 PROP=$(echo $P | sed 's/[a-z]$//')
 OUT=/verif/seeded/$P
